@@ -175,6 +175,8 @@ TWIN_FILES = [
 
 # functions sharing code: shared tails, several returns, interleaved layouts (C11, C10, C12)
 SHARED_PROGRAMS = [
+    # interleaved bodies sharing a block that does not return: the exits are in the opposite order of the entries
+    "main:\n    call f\n    call g\n    li a7, 10\n    ecall\nf:\n    beqz a0, fail\n    j f_end\ng:\n    beqz a0, fail\n    li a0, 2\n    ret\nf_end:\n    li a0, 1\n    ret\nfail:\n    li a7, 93\n    ecall\n",
     "main:\n    call fn_a\n    call fn_b\n    li a7, 10\n    ecall\nfn_a:\n    addi a0, a0, 1\n    j tail\nfn_b:\n    beqz a0, tail\n    li a0, 2\n    ret\ntail:\n    addi a0, a0, 3\n    ret\n",
     "main:\n    call fn_a\n    call fn_b\n    li a7, 10\n    ecall\nfn_b:\n    beqz a0, tail\n    li a0, 2\n    ret\nfn_a:\n    addi a0, a0, 1\ntail:\n    addi a0, a0, 3\n    ret\n",
     "main:\n    call f\n    li a7, 10\n    ecall\nf:\n    beqz a0, f_zero\n    bltz a0, f_neg\n    li a0, 1\n    ret\nf_zero:\n    li a0, 0\n    ret\nf_neg:\n    li a0, -1\n    ret\n",
